@@ -57,6 +57,7 @@ type envWorld struct {
 	H, M, P, Q, S *principal
 	hdr           map[string][]byte // "alg1" (H's), "alg2"/"alg1" for M
 	mHdr          []byte
+	hdrMismatch   string // the header of a token the library sealed differs from the varsig header of the issuer's algorithm
 	base          map[string]*envelopeParts
 	bases         []map[string]*envelopeParts // the same two tokens with each of baseCommands (bases[0] == base)
 	cids          []cid.Cid
@@ -332,6 +333,14 @@ func newEnvWorldAlg(seed int64, mSameAlg bool, hAlg string) (*envWorld, error) {
 	ew.mHdr, _ = mp.hdr.AsBytes()
 	hh, _ := ew.base["dlg"].hdr.AsBytes()
 	ew.hdr["alg1"] = hh
+	for _, pr := range []struct {
+		p *principal
+		h []byte
+	}{{ew.H, hh}, {ew.M, ew.mHdr}} {
+		if want := wireHeader(pr.p.alg); want != nil && !bytes.Equal(pr.h, want) {
+			ew.hdrMismatch = fmt.Sprintf("a token sealed by a %s issuer announces %x, the varsig header of %s is %x", pr.p.alg, pr.h, pr.p.alg, want)
+		}
+	}
 	if mSameAlg {
 		ew.hdr["alg2"] = otherHeader(hh)
 	} else {
@@ -340,13 +349,35 @@ func newEnvWorldAlg(seed int64, mSameAlg bool, hAlg string) (*envWorld, error) {
 	return ew, nil
 }
 
-// otherHeader returns a valid varsig header of an algorithm different from the given one.
-func otherHeader(h []byte) []byte {
-	ed := []byte{0x34, 0xed, 0x01, 0x71}
-	if bytes.Equal(h, ed) {
+// wireHeader: the varsig header (prefix, signature algorithm, hash, payload encoding) of each key algorithm, written out by
+// hand from the multicodec numbers: 0x34 | ed25519-pub 0xed | dag-cbor 0x71, 0x34 | secp256k1-pub 0xe7 | sha2-256 0x12 | 0x71,
+// 0x34 | es256 0xd01200 | 0x12 | 0x71 (every NIST curve), 0x34 | rsa-pub 0x1205 | 0x12 | signature length 0x100 | 0x71.
+func wireHeader(alg string) []byte {
+	switch alg {
+	case "ed25519":
+		return []byte{0x34, 0xed, 0x01, 0x71}
+	case "secp256k1":
 		return []byte{0x34, 0xe7, 0x01, 0x12, 0x71}
+	case "p256", "p384", "p521":
+		return []byte{0x34, 0x80, 0xa4, 0xc0, 0x06, 0x12, 0x71}
+	case "rsa":
+		return []byte{0x34, 0x85, 0x24, 0x12, 0x80, 0x02, 0x71}
 	}
-	return ed
+	return nil
+}
+
+// otherHeader returns a valid varsig header of an algorithm different from the given one: the nearest relative (the two
+// elliptic-curve ECDSA schemes are told apart by their header only).
+func otherHeader(h []byte) []byte {
+	switch {
+	case bytes.Equal(h, wireHeader("secp256k1")):
+		return wireHeader("p256")
+	case bytes.Equal(h, wireHeader("p256")):
+		return wireHeader("secp256k1")
+	case bytes.Equal(h, wireHeader("ed25519")):
+		return wireHeader("secp256k1")
+	}
+	return wireHeader("ed25519")
 }
 
 // classes with several concrete representatives: a case that uses one is replayed once per representative
@@ -870,6 +901,9 @@ func envelopeReplay(prop string) replayFn {
 			return err
 		}
 		rep.Extra["algorithms"] = map[string]string{"H": ew.H.alg, "M": ew.M.alg}
+		if ew.hdrMismatch != "" && prop == "C06" {
+			rep.violation(map[string]any{"issuer": ew.H.alg}, "the varsig header of the issuer's algorithm", ew.hdrMismatch, "the signature scheme announced in the envelope header is not the issuer's")
+		}
 		var runRep func(ew *envWorld, raw json.RawMessage, c envCase) error
 		caseNo := 0
 		runCase := func(ew *envWorld, raw json.RawMessage, c envCase) error {
@@ -1006,6 +1040,10 @@ func envelopeReplay(prop string) replayFn {
 				ew2, err := newEnvWorldAlg(envSeed(), true, alg)
 				if err != nil {
 					return err
+				}
+				rep.Evaluations++
+				if ew2.hdrMismatch != "" {
+					rep.violation(map[string]any{"issuer": alg}, "the varsig header of the issuer's algorithm", ew2.hdrMismatch, "the signature scheme announced in the envelope header is not the issuer's")
 				}
 				swept = append(swept, alg)
 				tSweep := time.Now()
